@@ -17,6 +17,9 @@ type BatchedPrivateIssuer struct {
 }
 
 func NewBatchedPrivateIssuer(key *oprf.PrivateKey) *BatchedPrivateIssuer {
+	// PrivateKey.Public() fills in the public part lazily and without synchronisation;
+	// do it once here, before the issuer can be shared between goroutines.
+	key.Public()
 	return &BatchedPrivateIssuer{
 		tokenKey: key,
 	}
